@@ -21,8 +21,9 @@ RULE = (
     "variable the metadata accessors shape, chunks, dtype, name, __dask_keys__, repr, _repr_html_, len, numblocks, npartitions, nbytes, "
     "transfer_bytes, chunksize, pprint, explain, chunk_report, simplify, optimize, expr.optimize, __dask_graph__, to_delayed, dask.optimize, "
     "pickling are called in the build phase. Violations: a build-phase read of a non-empty selection from a source; a build-phase call of a "
-    "user block function on a non-empty block (a 1-element zero-filled dtype-inference probe is logged, not flagged, unless dtype= and meta= "
-    "were given). Sanity: the execute phase must read (else inconclusive). distinct = (accessor, op sequence); non-trivial = program with "
+    "user block function on a non-empty block (a 1-element zero-filled dtype-inference probe is logged, not flagged, unless dtype= was "
+    "given). Sources enter through from_array, asarray, asanyarray or operator coercion; kernels include blockwise with dtype= only over "
+    "0-d values raised to n-d again, and map_overlap with declared dtype/meta followed by a slice of its halo-free axes. Sanity: the execute phase must read (else inconclusive). distinct = (accessor, op sequence); non-trivial = program with "
     ">= 2 ops over a multi-block source"
 )
 ASSUMPTIONS = ["dask's documented dtype inference calls the function on 1-element fake data when dtype/meta are omitted: an inference probe, not user data"]
@@ -73,8 +74,15 @@ class StoreProg(Prog):
         store = rec.RecStore(data, chunks=grid, allow_fancy=True, allow_step=True)
         self.stores.append(store)
         chunks = rand_chunks(self.rng, shape)
-        x = da.from_array(store, chunks=chunks)
-        return self._add("from_store", [], {"shape": list(shape), "chunks": [list(c) for c in chunks], "grid": grid}, data, x, 0, 0)
+        how = self.rng.choice(["from_array"] * 3 + ["asarray", "asanyarray", "implicit"])
+        if how == "from_array":
+            x = da.from_array(store, chunks=chunks)
+        elif how == "implicit":
+            # the source enters through coercion by an operator
+            x = da.zeros(shape, chunks=chunks, dtype=data.dtype) + store
+        else:
+            x = getattr(da, how)(store)
+        return self._add("from_store", [], {"shape": list(shape), "chunks": [list(c) for c in x.chunks], "grid": grid, "how": how}, data, x, 0, 0)
 
 
 def build_program(rng, ctx):
@@ -89,13 +97,58 @@ def build_program(rng, ctx):
             if r < 0.2 and g.vars:
                 # recording kernels
                 v = rng.choice([u for u in g.vars if u.np.dtype.kind in "fi"] or g.vars)
-                kind = rng.choice(["plain", "plain_dtype", "block_info_dtype", "block_info"])
+                kind = rng.choice(["plain", "plain_dtype", "block_info_dtype", "block_info", "blockwise_dtype_only", "zero_d_expand", "overlap_declared", "overlap_declared"])
                 try:
+                    if kind in ("blockwise_dtype_only", "zero_d_expand"):
+                        src, e = v.da, v.np
+                        if kind == "zero_d_expand":
+                            # a 0-d value whose rank is raised again, then a user kernel with dtype= only
+                            if src.ndim:
+                                src, e = src.sum(), np.asarray(e.sum())
+                            if rng.random() < 0.5:
+                                shp = (1,) * rng.randint(1, 3)
+                                src, e = src.reshape(shp), e.reshape(shp)
+                            else:
+                                shp = tuple(rng.randint(1, 4) for _ in range(rng.randint(1, 2)))
+                                src, e = da.broadcast_to(src, shp), np.broadcast_to(e, shp)
+                            mid = g._add("zero_d_expand", [v.id], {"shape": list(shp)}, e, src, 0, v.depth + 1)
+                            vid = mid.id
+                        else:
+                            vid = v.id
+                        ind = tuple(range(src.ndim))
+                        y = da.blockwise(rec.rec_plain_fn, ind, src, ind, dtype=float, tag="dtype_only")
+                        g._add("rec_blockwise", [vid], {"kind": kind}, e + 1.0, y, 0, v.depth + 2)
+                        ctx.count(f"kernels:{kind}")
+                        continue
+                    if kind == "overlap_declared":
+                        if v.ndim < 1 or min(v.np.shape) < 1:
+                            continue
+                        ax = rng.randrange(v.ndim)
+                        d = rng.randint(1, 2)
+                        depth = {a: (d if a == ax else 0) for a in range(v.ndim)}
+                        bnd = rng.choice(["none", "reflect", "nearest"])
+                        mo_kw = {"dtype": v.np.dtype}
+                        if rng.random() < 0.5:
+                            mo_kw["meta"] = np.empty((0,) * v.ndim, dtype=v.np.dtype)
+                        y = v.da.map_overlap(rec.rec_declared_fn, depth=depth, boundary=bnd, **mo_kw)
+                        mid = g._add("rec_map_overlap", [v.id], {"depth": depth, "boundary": bnd}, v.np + 1, y, 0, v.depth + 1)
+                        # a slice touching only the halo-free axes (the optimizer rebuilds the overlap over the sliced input)
+                        idx = []
+                        for a, n in enumerate(v.np.shape):
+                            if a == ax or n < 2 or rng.random() < 0.3:
+                                idx.append(slice(None))
+                            else:
+                                lo = rng.randrange(n)
+                                idx.append(slice(lo, rng.randint(lo + 1, n)))
+                        idx = tuple(idx)
+                        g._add("getitem_after_overlap", [mid.id], {"idx": str(idx)}, (v.np + 1)[idx], y[idx], 0, v.depth + 2)
+                        ctx.count("kernels:overlap_declared")
+                        continue
                     if kind == "plain":
                         y = da.map_blocks(rec.rec_plain_fn, v.da, tag="plain")
                         declared = False
                     elif kind == "plain_dtype":
-                        y = da.map_blocks(rec.rec_plain_fn, v.da, dtype=v.np.dtype, meta=np.empty((0,) * v.ndim, dtype=v.np.dtype), tag="declared")
+                        y = da.map_blocks(rec.rec_declared_fn, v.da, dtype=v.np.dtype, meta=np.empty((0,) * v.ndim, dtype=v.np.dtype))
                         declared = True
                     elif kind == "block_info_dtype":
                         y = da.map_blocks(rec.rec_block_info_fn, v.da, dtype=v.np.dtype, meta=np.empty((0,) * v.ndim, dtype=v.np.dtype), tag="declared")
@@ -130,11 +183,14 @@ def check_events(g, ctx, phase_label):
         # real data can only come from a source (whose build-phase reads are flagged separately);
         # dtype-inference probes are zeros/ones/uninitialised memory
         # (inference probes are 1-element arrays of fake data; their content may even be recycled memory)
+        if c["shape"] == []:
+            # a 0-d block: a 0-d meta cannot be empty, so inference over a 0-d input necessarily passes one fake element
+            # (the source's own element being read to make that meta is the separate data_read_at_build clause)
+            ctx.count("zero_d_meta_probes_seen")
+            continue
         user_data = c["size"] > 1
-        if c["tag"] == "declared" or user_data:
-            mech = f"block_fn_called_at_build:{'declared' if c['tag'] == 'declared' else 'user_data'}"
-            if c["shape"] == [] and any(s.shape == () for s in g.stores):
-                mech = "block_fn_called_at_build:zero_dim_source"
+        if c["tag"] in ("declared", "dtype_only") or user_data:
+            mech = f"block_fn_called_at_build:{c['tag'] if c['tag'] in ('declared', 'dtype_only') else 'user_data'}"
             problems.append(("block_fn_called_at_build", f"{phase_label}: user block function called on a block of shape {c['shape']} (max value {c['maxval']}, dtype/meta declared={c['tag'] == 'declared'}) before any graph was executed", mech))
             break
         ctx.count("inference_probes_seen")
